@@ -107,3 +107,49 @@ func VerifRun_C08c() {
 		verifViolation("", "diagnostics after a batch of watched-file change events differ from those of a fresh start on the same files")
 	}
 }
+
+// C08-d: create/delete events of a required module file: afterwards the diagnostics equal a fresh start.
+func VerifRun_C08d() {
+	root := verifVFSRoot()
+	c08workspace(root)
+	d1 := string([]byte{byte(verifConcretize(int(verifByteIn("d1", "ab"))))})
+	p1 := string(verifBytesIn("p1", 1, "ab"))
+	f1 := root + "/" + d1 + "/x.lua"
+	mainF := root + "/m.lua"
+	sep := "."
+	if verifBool("slash") {
+		sep = "/"
+	}
+	verifVFSPut(mainF, []byte("local r = require(\""+p1+sep+"x\")\nq = r\n"))
+	present := verifBool("present")
+	files := []string{mainF}
+	if present {
+		verifVFSPut(f1, []byte("return 1\n"))
+		files = append(files, f1)
+	}
+	p := CreateAllProject(files, nil, nil)
+	p.HandleCheck()
+	all := []string{mainF, f1}
+	// a short history of create/delete events of the module file
+	for k := 0; k < verifParam("EVENTS"); k++ {
+		if present {
+			verifVFSDel(f1)
+			p.HandleFileEventChanges([]FileEventStruct{{StrFile: f1, Type: FileEventDeleted}})
+		} else {
+			verifVFSPut(f1, []byte("return 1\n"))
+			p.HandleFileEventChanges([]FileEventStruct{{StrFile: f1, Type: FileEventCreated}})
+		}
+		present = !present
+		now := []string{mainF}
+		if present {
+			now = append(now, f1)
+		}
+		fresh := CreateAllProject(now, nil, nil)
+		fresh.HandleCheck()
+		verifReach("compared")
+		if c08diag(p, all) != c08diag(fresh, all) {
+			verifViolation("", "diagnostics after a create/delete event of a required file differ from those of a fresh start")
+			return
+		}
+	}
+}
